@@ -58,11 +58,25 @@ def optimised_universe(w: World) -> List[object]:
             lst(w.INT), lst(opt(w.INT)), opt(lst(w.FLOAT)), uni(w.INT, sla), opt(uni(w.FLOAT, w.PS1)), w.ptr("P"), opt(w.ptr("Q"))]
 
 
+def pairs_universe(w: World) -> List[object]:
+    """Samples of simplified models with TWO varying fields (what one field does must not depend on its neighbour)."""
+    def one(cname, *a):
+        r = w.make(cname, *a)
+        return r[0][1]
+    opt = lambda x: one("DOptional", x)
+    vals = [ABSENT, w.INT, opt(w.INT), w.FLOAT, w.sl("a"), opt(w.sl("b"))]
+    return [{"f": a, "h": b} for a in vals for b in vals]
+
+
 def pipeline(w: World, seq) -> List[Tuple[str, object]]:
     f_merge = w.ctx.prog.func(GEN, "MetadataGenerator.merge_field_sets")
     known = set()
     for r in seq:
-        if r is not ABSENT and r is not EMPTY:
+        if isinstance(r, dict):
+            for v in r.values():
+                if v is not ABSENT:
+                    known |= _literal_sets(v)
+        elif r is not ABSENT and r is not EMPTY:
             known |= _literal_sets(r)
     w.ev.state["known_ok"] = known
 
@@ -72,6 +86,10 @@ def pipeline(w: World, seq) -> List[Tuple[str, object]]:
             d = {"g": w.INT}
             if r is EMPTY:
                 d = {}
+            elif isinstance(r, dict):
+                # a sample with two fields that vary (f before h in key order)
+                d = {k: (v if isinstance(v, (Cls, ModelDict)) else clone(v)) for k, v in r.items() if v is not ABSENT}
+                d["g"] = w.INT
             elif r is not ABSENT:
                 d = {"f": r if isinstance(r, (Cls, ModelDict)) else clone(r), "g": w.INT}
             sets.append(d)
@@ -119,14 +137,14 @@ def _sample_kinds(r) -> Set[str]:
     return ks
 
 
-def field_problems(seq, result) -> List[str]:
+def field_problems(seq, result, field: str = "f") -> List[str]:
     out = []
     kinds: Set[str] = set()
     for r in seq:
-        kinds |= _sample_kinds(r)
+        kinds |= _sample_kinds(r.get(field, ABSENT) if isinstance(r, dict) else (r if field == "f" else ABSENT))
     if not isinstance(result, dict):
         return [f"the pipeline returned {show(result)}, not a field set"]
-    fk = next((k for k in result if k == "f"), None)
+    fk = next((k for k in result if k == field), None)
     typed = kinds - {"ABSENT"}
     if fk is None:
         if typed:
@@ -183,7 +201,11 @@ def _check_multisets(w: World, universe: List[object], combos) -> Tuple[Dict[str
         return cache[idx]
 
     def label(idx):
-        return "[" + ", ".join(show(universe[i]) if universe[i] not in (ABSENT, EMPTY) else ("-" if universe[i] is ABSENT else "{}") for i in idx) + "]"
+        def one(x):
+            if isinstance(x, dict):
+                return "{" + ", ".join(f"{k}: {show(v) if v is not ABSENT else '-'}" for k, v in x.items()) + "}"
+            return show(x) if x not in (ABSENT, EMPTY) else ("-" if x is ABSENT else "{}")
+        return "[" + ", ".join(one(universe[i]) for i in idx) + "]"
 
     for combo in combos:
         stats["lists"] += 1
@@ -192,9 +214,11 @@ def _check_multisets(w: World, universe: List[object], combos) -> Tuple[Dict[str
             if tag == "raise":
                 note(f"the inference raises {r.etype}", f"samples {label(combo)} ({r.where})")
         seq = [universe[i] for i in combo]
+        fields = ["f", "h"] if any(isinstance(x, dict) for x in seq) else ["f"]
         for r in vals:
-            for p in field_problems(seq, r):
-                note(p, f"samples {label(combo)} -> {show(r.get('f')) if isinstance(r, dict) else show(r)}")
+            for fld in fields:
+                for p in field_problems(seq, r, fld):
+                    note(p, f"samples {label(combo)} -> {fld}: {show(r.get(fld)) if isinstance(r, dict) else show(r)}")
         for perm in set(itertools.permutations(combo)):
             if perm == combo:
                 continue
@@ -235,8 +259,10 @@ def _rule_perm1(ctx: Ctx) -> RuleResult:
                     "sample and holds nothing no sample brought", floor=3)
     w = World(ctx)
     universes = {"first round (raw types of the values)": raw_universe(w),
-                 "second round (field types of simplified models that are merged)": optimised_universe(w)}
-    combos = {k: [c for r in (1, 2, 3) for c in itertools.combinations_with_replacement(range(len(u)), r)] for k, u in universes.items()}
+                 "second round (field types of simplified models that are merged)": optimised_universe(w),
+                 "second round, two varying fields (lists of up to two samples)": pairs_universe(w)}
+    combos = {k: [c for r in ((1, 2) if "two varying" in k else (1, 2, 3)) for c in itertools.combinations_with_replacement(range(len(u)), r)]
+              for k, u in universes.items()}
     _SHARED["world"], _SHARED["universe"], _SHARED["combos"] = w, universes, combos
     ncpu = min(16, os.cpu_count() or 1)
     parts = ncpu * 2 if ncpu > 1 else 1
@@ -252,7 +278,8 @@ def _rule_perm1(ctx: Ctx) -> RuleResult:
     evaluated: Dict[str, int] = {}
     for which, pr, st, fe in results:
         for k, (wit, c) in pr.items():
-            k = k if which.startswith("first") else k + " (merging simplified models)"
+            k = k if which.startswith("first") else k + (" (merging simplified models)" if "two varying" not in which else
+                                                        " (merging simplified models, two fields)")
             cur = problems.get(k)
             if cur is None or len(wit) < len(cur[0]):
                 problems[k] = (wit, c + (cur[1] if cur else 0))
